@@ -109,7 +109,12 @@ class _Record(TypeDefinition):
         try:
             return self.get_field_value(item)
         except KeyError:
-            return self.__dict__[item]
+            try:
+                return self.__dict__[item]
+            except KeyError:
+                # neither a field nor an attribute: the getattr() protocol is AttributeError
+                # (copy, pickle and hasattr rely on it)
+                raise AttributeError(f'{self.__class__.__name__} has no field or attribute {item!r}') from None
 
     def __setattr__(self, key, value):
         try:
